@@ -19,6 +19,7 @@
  Ra alias mutation: a local that still names a list of another object (not copied) is never mutated in place.
  Rn arg roles     : a variable named like a parameter of the callee is handed to that parameter (no exchanged roles).
  R6 declared bands: a designed multi-band amplifier declares exactly the bands of its installed amplifiers (shared with C07-R7).
+ R8 default range   : find_common_range decision table (intersection | default band | nothing).
 """
 import ast
 
@@ -439,6 +440,39 @@ def r6_declared_bands(ctx):
     r7_declared_bands(proxy(ctx, 'R6', needs=True))
 
 
+
+def r8_default_range(ctx):
+    """R8: an OMS without any amplifier (ROADM to ROADM through a fused element) still gets a spectrum map: find_common_range
+    answers, as a decision over its tests, (the intersection) when there are amplifier bands, else (the default band) when both
+    default limits are given, else (nothing) - compared as a decision table, so guard clauses or merged tests do not matter"""
+    from ..pattern import bound_by
+    from ..casedomain import same_decisions
+    from ..dataflow import local_defs
+    from .common import through_locals
+    repo = ctx.repo
+    f = repo.func('gnpy.core.utils', 'find_common_range')
+    ub = bound_by(f.node, 'remove_duplicates(E_x)')
+    rets = [n for n in walk_no_nested(f.node) if isinstance(n, ast.Return) and isinstance(n.value, ast.Call) and
+            getattr(n.value.func, 'id', '') == 'sorted']
+    if len(ub) != 1 or len(rets) != 1:
+        raise AnchorMissing('find_common_range: unique band list / sorted result')
+    u = ub[0][0]
+    lo, hi = f.params[1], f.params[2]
+    spec = ast.parse(f"""
+def spec():
+    if {u}:
+        return {ast.unparse(rets[0].value)}
+    if {lo} is None or {hi} is None:
+        return []
+    return [{{'f_min': {lo}, 'f_max': {hi}, 'spacing': None}}]
+""").body[0]
+    same, diff = same_decisions(through_locals(f.node, local_defs(f.node), keep={u}), spec)
+    ctx.check('R8.default-range', site(f), same, key(f, 'decision'),
+              'find_common_range does not answer (intersection | default band | nothing) on (amplifier bands present | both default '
+              'limits given | otherwise): an unamplified OMS would get no band and its spectrum map could not be built', diff[:300])
+    ctx.need('R8.default-range', 1)
+
+
 from ..memo import rule_for as _memo_rule
 
 RULES_MEMO = ('Rm.memo', _memo_rule('C15', 'the spectrum map of another configuration would be reused'))
@@ -448,4 +482,4 @@ from ..presence import rule_for as _presence_rule
 
 RULES_PRESENCE = ('Rp.presence', _presence_rule('C15', 'a legal zero would be read as missing'))
 
-RULES = [('R5.common-range', r5_common_range), ('R1.layout', r1_layout), ('R2.indices', r2_indices), ('R3.grid', r3_grid), ('R4.walk', r4_walk), RULES_MEMO, RULES_PRESENCE, ('Re.for-each', re_foreach), ('Ra.alias-mutation', ra_alias), ('Rn.arg-roles', rn_arg_roles), ('R6.declared-bands', r6_declared_bands)]
+RULES = [('R5.common-range', r5_common_range), ('R1.layout', r1_layout), ('R2.indices', r2_indices), ('R3.grid', r3_grid), ('R4.walk', r4_walk), RULES_MEMO, RULES_PRESENCE, ('Re.for-each', re_foreach), ('Ra.alias-mutation', ra_alias), ('Rn.arg-roles', rn_arg_roles), ('R6.declared-bands', r6_declared_bands), ('R8.default-range', r8_default_range)]
